@@ -17,7 +17,8 @@ LEVEL = 'exploration'
 ENGINE = 'E1-product-explorer'
 TECHNIQUE = ('bounded-exhaustive enumeration of a 700-lane alphabet of monotone functions with exactly known roots x vector '
              'compositions (every lane alone, every ordered pair of a 60-lane core, full vector, tiled rotations, scalar) for '
-             'both solvers; invalid brackets at every position of a valid vector')
+             'both solvers; zero-width brackets, plateaus of roots and lanes of huge magnitude next to every core lane; invalid '
+             'brackets at every position of a valid vector')
 LEVEL_TEXT = ('every lane and every enumerated vector composition is solved by the real solvers and each lane result is '
               'compared with its known root and with its solo result; functions outside the generated family are not '
               'enumerated: exploration.')
